@@ -15,6 +15,7 @@ import (
 	"sort"
 	"strings"
 	"sync"
+	"sync/atomic"
 	"testing"
 	"time"
 
@@ -101,6 +102,13 @@ func TestVerifC19(t *testing.T) {
 		M := 3 + rng.Intn(2)
 		auth := rng.Intn(3) == 0
 		delay := round%2 == 1
+		// variants: every sixth round doubles each init upload (a retried first request in flight together with the original),
+		// another one stalls the channel goroutine inside its MPD write while eight tracks upload (the hand-over queue fills up),
+		// a third one restarts the receiver on the stored channel and sends two media segments per track at once
+		variant := []string{"", "", "", "restart", "double-init", "slow-channel"}[round%6]
+		if variant == "slow-channel" {
+			C, T, M = 1, 8, 7
+		}
 		if !r.Begin(round+1, fmt.Sprintf("round %d C=%d T=%d M=%d auth=%v delay=%v", round, C, T, M, auth, delay)) {
 			continue
 		}
@@ -136,6 +144,9 @@ func TestVerifC19(t *testing.T) {
 		if delay {
 			vhook.SetDelay("recv.before-add-channel", 2*time.Millisecond)
 		}
+		if variant == "slow-channel" {
+			vhook.SetDelay("recv.before-write-timeline-mpd", 350*time.Millisecond)
+		}
 		rv := vfNewReceiver(t, 60, cfg)
 		type upRes struct {
 			ch, tr string
@@ -148,6 +159,17 @@ func TestVerifC19(t *testing.T) {
 		gate := make(chan struct{})
 		for _, ch := range chans {
 			for _, tr := range tracks {
+				if variant == "double-init" {
+					wg.Add(1)
+					go func(ch string, tr *vfTrack) {
+						defer wg.Done()
+						<-gate
+						code := rv.put(fmt.Sprintf("%s/%s/init%s", ch, tr.name, tr.ext), tr.init, hdr)
+						mu.Lock()
+						results = append(results, upRes{ch, tr.name, -1, code})
+						mu.Unlock()
+					}(ch, tr)
+				}
 				wg.Add(1)
 				go func(ch string, tr *vfTrack) {
 					defer wg.Done()
@@ -250,7 +272,7 @@ func TestVerifC19(t *testing.T) {
 		for _, lst := range [][]string{snap.reps, snap.tlReps} {
 			seen := map[string]bool{}
 			for _, id := range lst {
-				if seen[id] {
+				if seen[id] && variant != "double-init" { // a repeated init upload registers again, also sequentially: judged by the replay only
 					r.Violation("representation-listed-twice-in-mpd", det(fmt.Sprintf("%s in %v", id, lst)))
 					bad = true
 				}
@@ -259,7 +281,7 @@ func TestVerifC19(t *testing.T) {
 		}
 		for _, ch := range chans {
 			for _, tr := range tracks {
-				if regd[ch+"/"+tr.name] != 1 {
+				if n := regd[ch+"/"+tr.name]; n != 1 && !(variant == "double-init" && n == 2) {
 					r.Violation("track-not-registered-exactly-once", det(fmt.Sprintf("%s/%s was registered %d times (registration events: %v)", ch, tr.name, regd[ch+"/"+tr.name], regOrder)))
 					bad = true
 				}
@@ -286,6 +308,7 @@ func TestVerifC19(t *testing.T) {
 			r.Violation("mpd-file-not-well-formed", det(""))
 			bad = true
 		}
+		vhook.SetDelay("recv.before-write-timeline-mpd", 0)
 		// (2) sequential replay of the observed serialization
 		if !bad {
 			rv2 := vfNewReceiver(t, 60, cfg)
@@ -323,6 +346,63 @@ func TestVerifC19(t *testing.T) {
 				r.Violation("timeline-manifest-differs-from-sequential-replay", det(ora.FirstDiff(snap.tl, snap2.tl)))
 			}
 		}
+		if variant == "restart" && !bad {
+			// the receiver is started again on the stored channels; the first requests it sees are two media segments per track at once
+			rvR := vfNewReceiverAt(t, rv.storage, 60, cfg)
+			vfEvReset()
+			var wgR sync.WaitGroup
+			var refused int32
+			gateR := make(chan struct{})
+			for _, ch := range chans {
+				for _, tr := range tracks {
+					for k := 0; k < 2; k++ {
+						wgR.Add(1)
+						go func(ch string, tr *vfTrack, seq uint32) {
+							defer wgR.Done()
+							<-gateR
+							if rvR.put(fmt.Sprintf("%s/%s/%d%s", ch, tr.name, seq, tr.ext), tr.segment(ch, seq, 0, 1), hdr) != 200 {
+								atomic.AddInt32(&refused, 1)
+							}
+						}(ch, tr, uint32(M+k))
+					}
+				}
+			}
+			close(gateR)
+			doneR := make(chan struct{})
+			go func() { wgR.Wait(); close(doneR) }()
+			select {
+			case <-doneR:
+				r.Eval(2 * len(chans) * len(tracks))
+				vfWaitCompleted(chPrefix, 2*len(chans)*len(tracks)-int(refused), 20*time.Second)
+				regR := map[string]int{}
+				for _, e := range vfEventsFor(chPrefix) {
+					if e.Name == "recv.registered" && len(e.KV) >= 2 {
+						regR[e.KV[0].(string)+"/"+e.KV[1].(string)]++
+					}
+				}
+				for id, n := range regR {
+					if n != 1 {
+						r.Violation("track-not-registered-exactly-once:after-restart", det(fmt.Sprintf("%s was registered %d times by two concurrent uploads after a restart", id, n)))
+					}
+				}
+				snapR := vfSnapshot(rv.storage, chans)
+				for _, lst := range [][]string{snapR.reps, snapR.tlReps} {
+					seen := map[string]bool{}
+					for _, id := range lst {
+						if seen[id] {
+							r.Violation("representation-listed-twice-in-mpd:after-restart", det(fmt.Sprintf("%s in %v", id, lst)))
+						}
+						seen[id] = true
+					}
+				}
+				if refused > 0 {
+					r.Violation("upload-refused-after-restart", det(fmt.Sprintf("%d of %d uploads", refused, 2*len(chans)*len(tracks))))
+				}
+			case <-time.After(60 * time.Second):
+				r.Inconclusive("restart-phase-watchdog")
+			}
+			rvR.cancel()
+		}
 		rv.close()
 		order := append([]string{}, regOrder...)
 		h := 0
@@ -330,7 +410,7 @@ func TestVerifC19(t *testing.T) {
 			h = h*31 + len(s)*(i+1) + int(s[len(s)-1])
 		}
 		sort.Strings(order)
-		r.Class(fmt.Sprintf("C=%d|T=%d|auth=%v|delay=%v|order=%x", C, T, auth, delay, h%4096))
+		r.Class(fmt.Sprintf("C=%d|T=%d|auth=%v|delay=%v|variant=%s|order=%x", C, T, auth, delay, variant, h%4096))
 		if round < 2 {
 			r.Sample(map[string]any{"round": round, "channels": C, "tracks": T, "registration_order": regOrder, "hook_events": len(evs)})
 		}
